@@ -84,6 +84,19 @@ KWARGS = ({}, {}, {}, {"encoding": "latin1"}, {"encoding": "bytes"}, {"fix_impor
 FLOORS = {1: 3, 2: 3, 3: 3, 4: 4, 5: 4, 6: 5, 7: 5, 9: 3, 10: 3, 11: 3, 12: 3, 13: 3, 14: 3}
 
 
+def _complete(data):
+    """does `data` start with a complete pickle (ends in STOP, every opcode well formed)?"""
+    import pickletools
+
+    try:
+        for op, _arg, _pos in pickletools.genops(data):
+            if op.name == "STOP":
+                return True
+    except Exception:  # noqa: BLE001
+        return False
+    return False
+
+
 def _forget_canaries():
     for m in [m for m in sys.modules if m.split(".")[0] in CANARY_ROOTS]:
         del sys.modules[m]
@@ -379,6 +392,15 @@ def run_case(data, stream_kind, threshold, path, fault, scratch, flip_to=None, k
             return fail(f"did not return ({outcome[0]}) but resolved globals: {evs!r}")
         if imported:
             return fail(f"did not return ({outcome[0]}) but imported {imported}, named by the pickle")
+    if not _complete(data) and flip_to is None:
+        # bytes without a terminating STOP (or not a pickle at all) can never be returned by any
+        # unpickler: every outcome is a non-returning one, whatever the analysis thought of them
+        if outcome[0] == "returned":
+            return fail(f"returned {outcome[1]!r} for bytes that are not a complete pickle")
+        if log:
+            return fail(f"the bytes are not a complete pickle ({outcome[0]}: {outcome[1]!r}) but the sink ran: {log!r}")
+        if evs or imported:
+            return fail(f"the bytes are not a complete pickle ({outcome[0]}) but globals were resolved: {evs or imported!r}")
     if fault:
         if outcome[0] == "returned":
             return fail(f"analysis failed with an injected {fault} but the load returned {outcome[1]!r}")
